@@ -32,10 +32,10 @@ def key_of(mis):
 
 
 def replay_states(c, path, scale, max_size, jitter=True):
-    args = ["c09-states", "--in", path, "--scale", scale, "--max-size", max_size, "--seed", V.seed()]
+    args = ["states", "--in", path, "--scale", scale, "--max-size", max_size, "--seed", V.seed()]
     if jitter:
         args.append("--jitter")
-    rc, out = V.ckbv(args, timeout=3000)
+    rc, out = V.ckbv("c09", args, timeout=3000)
     lines = V.parse_ndjson(out)
     summ = [x["summary"] for x in lines if "summary" in x]
     if rc != 0 or not summ:
@@ -52,7 +52,7 @@ def replay_states(c, path, scale, max_size, jitter=True):
 def drive(c, max_size, hist, steps, n):
     wd = V.workdir(PID)
     trace = os.path.join(wd, "trace_%d.ndjson" % n)
-    rc, out = V.ckbv(["c09-drive", "--seed", V.seed() * 1000 + n, "--hist", hist, "--steps", steps,
+    rc, out = V.ckbv("c09", ["drive", "--seed", V.seed() * 1000 + n, "--hist", hist, "--steps", steps,
                       "--max-size", max_size, "--out", trace], timeout=1200)
     summ = [x["summary"] for x in V.parse_ndjson(out) if "summary" in x]
     if rc != 0 or not summ:
